@@ -335,6 +335,8 @@ def finishReply (R : RespTab) (c : Conn) : RespTab × Conn × Disp × List Ev :=
 
 /-- queue response `r` on connection `c` (the application's handler does it) and run the reply -/
 def doReply (cfg : Cfg) (R : RespTab) (c : Conn) (r : Nat) (cl : Bool) : RespTab × Conn × Disp × List Ev :=
+  -- MHD_queue_response: "the response was already set" / upgrade without MHD_ALLOW_UPGRADE → MHD_NO
+  if c.resp.isSome then (R, { c with req := none }, .clean, [.queued c.id r false]) else
   if isUpg R r && !cfg.allowUpgrade then (R, { c with req := none }, .clean, [.queued c.id r false]) else
   match acquire R r with
   | none => (R, { c with req := none }, .clean, [.queued c.id r false])   -- handler returns MHD_NO
